@@ -498,6 +498,18 @@ type ZRegCyclicInside struct {
 	Next *ZRegCyclicInside
 }
 
+// ZUnicode: exportedness is decided by the first LETTER, not the first byte: Ärger, Ωmega, Élan, Ñandú are exported,
+// élan and ωmega are not; an untagged field keeps its Go name as JSON name
+type ZUnicode struct {
+	Ärger int64
+	Ωmega string `json:"omega,omitempty"`
+	Élan  []byte
+	élan  int64   //nolint:unused
+	Ñandú float64 `json:"ñandú"`
+	ωmega string  //nolint:unused
+	Plain bool
+}
+
 type zooEntry struct {
 	name string
 	typ  reflect.Type
@@ -532,6 +544,7 @@ var zooList = []zooEntry{
 	ze[ZMutexUnexp]("ZMutexUnexp"), ze[ZMutexExp]("ZMutexExp"), ze[ZForeignUnsupported]("ZForeignUnsupported"), ze[ZDashPkg]("ZDashPkg"),
 	ze[ZRegAll]("ZRegAll"), ze[ZRegRecTwice]("ZRegRecTwice"), ze[ZRegUnregistered]("ZRegUnregistered"), ze[ZRegCyclicInside]("ZRegCyclicInside"),
 	ze[time.Time]("time.Time"), ze[null.Int]("null.Int"), ze[url.URL]("url.URL"),
+	ze[ZUnicode]("ZUnicode"),
 }
 
 // leaf types the random generator may place inside reflect.StructOf types
